@@ -182,7 +182,30 @@ func (st *State) check(t *Term) Res {
 		return Unsat
 	}
 	st.slv.Sync(st.pc.Slice())
-	return st.slv.Check(t)
+	r := st.slv.Check(t)
+	if r == Unsat && gCross != nil {
+		gCross.samplePrune(st, t)
+	}
+	return r
+}
+
+// gCross, when set, samples infeasibility verdicts (every pruneStride-th "unsat" at a branch, an
+// assumption or a cover) for the second-solver check, besides the discharged assertions.
+var gCross *Engine
+var pruneSeen, pruneDumped int64
+
+const pruneStride = 40
+
+func (e *Engine) samplePrune(st *State, t *Term) {
+	n := atomic.AddInt64(&pruneSeen, 1)
+	if n%pruneStride != 1 || atomic.LoadInt64(&pruneDumped) >= int64(e.crossMax*25) {
+		return
+	}
+	k := atomic.AddInt64(&pruneDumped, 1)
+	e.mu.Lock()
+	e.crossN["infeasible"] = 0
+	e.mu.Unlock()
+	e.writeScript(st, fmt.Sprintf("infeasible-%d", k), t)
 }
 
 // ---------------------------------------------------------------- engine
@@ -213,6 +236,7 @@ type Finding struct {
 	Sched   []string
 	Inputs  []CexInput
 	Sig     string
+	Bounds  map[string]int // the bounds in force when it was found (the native twin reads them)
 }
 
 type CexInput struct {
@@ -264,6 +288,9 @@ type Engine struct {
 	summarise  map[string]bool
 	merging    bool
 	concrete   map[string][]CexInput
+	crossDir   string         // where discharged obligations are dumped for the second-solver check
+	crossMax   int            // per label
+	crossN     map[string]int // label -> dumped so far
 }
 
 type Access2 struct{ A, B Access }
@@ -329,7 +356,7 @@ func (e *Engine) pos(p token.Pos) string {
 	}
 	ps := e.fset.Position(p)
 	f := ps.Filename
-	f = strings.TrimPrefix(f, "/repo/")
+	f = strings.TrimPrefix(f, repoRoot+"/")
 	return fmt.Sprintf("%s:%d", f, ps.Line)
 }
 
